@@ -626,6 +626,62 @@ PROPS["C15"] = dict(
                "Value is conditional on parser completeness (C01/C02); f64 equality under the stated float proviso.",
 )
 
+PROPS["C04"] = dict(
+    lean_targets=["SJ.Props.C04", "SJ.Audit.C04"],
+    configs=dict(quick=["d", "fr"], thorough=["d", "fr", "po", "ap", "rv"]),
+    gen_keys=["ser.", "de.", "error."],
+    rule="rtv: Values — a fixed corpus (boundary integers 0, +-1, +-2^53(+-1), i64::MIN/MAX, u64::MAX, powers of ten; every control "
+         "character, quote, backslash, U+2028, U+FFFF, astral characters as string, as key and inside a string; strings that look "
+         "like escapes; an object with all adversarial keys; empty containers; 1/2/50/100/126/127-deep arrays, objects and mixes "
+         "around five leaves; floats admitted by the configuration), 4000 (thorough 30000) random values of depth 0-4 (a third "
+         "without floats) and 200 (1500) random values wrapped 90-124 deep; floats: any finite f64 under float_roundtrip and "
+         "arbitrary_precision, otherwise only k*10^e with k < 10^15, |e| <= 22 whose printed text has at most 15 significant digits "
+         "and decimal exponent within +-22; each through to_string/from_str, to_vec/from_slice, to_writer/from_reader(chunked) x "
+         "{compact, pretty}; the value read back must have the same wire encoding (integers exact, floats bit for bit, object "
+         "iteration order). rtt: typed data — a zoo of derive(Serialize, Deserialize) types (harness/src/c04t.rs: all integer widths "
+         "to 128 bits at their bounds, f32, char, String, Option incl. nested/unit, unit/newtype/tuple/named structs incl. empty ones, "
+         "Vec, tuples, arrays, BTreeMap/HashMap with string/integer/bool/char/newtype/unit-variant keys, enums with all four variant "
+         "kinds incl. empty tuple/struct variants and escaped names, ByteBuf, recursive types, std types), 40 (thorough 1500) random "
+         "instances per type from the harness PRNG through the same six combinations, compared after the Some(null-like) -> None "
+         "normalisation. A case is non-trivial when the value is a number, a non-empty string or a container (rtt: always); "
+         "distinct = distinct case lines.",
+    trusted_base=[KERNEL, TIE,
+                  "hand-written models Model.Ser (serializer, tied by C03's correspondence) and Model.Machine/Model.Num (parser, tied by "
+                  "C01/C02's correspondence); here their composition is run against the crate's own round trip on every generated Value",
+                  "itoa prints plain decimal digits; ryu prints finite floats as RFC 8259 numbers (ExtOK)"],
+    assumptions=["itoa::Buffer::format prints the plain decimal digits of the integer (Ext.itoa = Spec.Number.decimal)",
+                 "ryu::Buffer::format_finite prints an RFC 8259 number; that the configured parser maps this text back to the same double is "
+                 "the explicit hypothesis FloatsRoundTrip of the theorems (C07's corollary under float_roundtrip, C08's exact case for short "
+                 "literals) and is evaluated by the driver on the text the crate printed for every generated float",
+                 "io::Write / io::Read deliver bytes in order (Vec writer, chunked reader)"],
+    partial=["typed clause (c04_typed): there is no Lean model of typed (de)serialisation yet; the clause is carried by the correspondence "
+             "run only (op rtt: derived types through the real crate, model = echo) until the typed machine exists",
+             "floats: c04_value takes the hypothesis FloatsRoundTrip cfg ext v (for every Float in v, parsing the text ryu prints gives that "
+             "Float back); it is discharged by C07 (float_roundtrip) / C08 (short literals), not here; c04_value_nofloat and c04_value_ap "
+             "need no such hypothesis",
+             "c04_wf_of_parse_partial: every value returned by the parser satisfies WFValue — proved for byte sources (from_slice/"
+             "from_reader) under the hypothesis that the floats of the returned value are finite (c04_wf_of_parse_finite: or that the "
+             "configured conversion returns finite floats only — C07/C08's finiteness clause, a statement about Spec.Ieee rounding not "
+             "proved here); unconditional under arbitrary_precision (c04_wf_of_parse_ap); for &str input the UTF-8 clause needs 'decoding "
+             "valid UTF-8 text yields valid UTF-8 strings', not proved",
+             "c04_reparse_partial (from_slice(to_vec(from_slice(bs))) = from_slice(bs)) inherits both float hypotheses"],
+    technique="Lean 4 theorems obtained by composing the Value fragment of C03 (serializer output = one RFC 8259 value with syntax tree "
+              "cstOf(image); re-proved layout-independently: the extracted formatter literals need only be their structural character plus "
+              "JSON whitespace, so a harmless change of the pretty layout alarms C03 but not C04) with C01 "
+              "completeness (derivable text meeting the side conditions is accepted with value canonM) and a structural induction showing "
+              "canonM(cstOf(image v)) = v for every well-formed Value; differential run of the composed models against the crate's own "
+              "round trips; typed data by differential round trips of a zoo of derived types",
+    level_text="Machine-checked: c04_value / c04_value_pretty (for every build, source, well-formed Value v and whitespace indent: the model "
+               "serializer's output parses back to exactly v, given that the float printer/parser pair returns the floats of v), "
+               "c04_value_nofloat and c04_value_ap (no float hypothesis), c04_value_all_floats (global float hypothesis), with each clause "
+               "of the representation invariant shown necessary by a counterexample. The crate's to_string/to_vec/to_writer(+pretty) "
+               "followed by from_str/from_slice/from_reader is run on generated Values and compared both with the original and with the "
+               "Lean round trip; typed data (derived types covering the serde data model) is round-tripped through the crate.",
+    level_note="Trusted: Lean kernel + 3 standard axioms; extract.py; harness/driver; the serializer and parser models (tied by C03 and "
+               "C01/C02 correspondence); itoa/ryu as parameters. Partial: typed clause by correspondence only; float step is a named "
+               "hypothesis (C07/C08).",
+)
+
 # properties not claimed yet (kept current as checks are added)
 NOT_APPLICABLE = [
     dict(property_id=f"C{i:02d}", reason="check under construction in this build phase; not yet claimed (see DESIGN.md §11 build order)")
